@@ -1,30 +1,16 @@
 /-
-Semantics of marker trees relative to a leaf evaluator, variables mentioned, and the projection
-theorems for `only` / `exclude` (helper lemmas for C17).
+Variables mentioned by a marker tree and the projection theorems for `only` / `exclude` /
+`reduce_by_python_constraint` (helper lemmas for C17), over the tree semantics `M.sem` of
+Proofs/MarkerSem.lean and the simplifier soundness of Proofs/MarkerAlgSound.lean.
 -/
-import PoetryVerif.Model.MarkerOps
+import PoetryVerif.Proofs.MarkerAlgSound
 
 set_option linter.unusedSimpArgs false
 set_option linter.unusedVariables false
 
 namespace Poetry.Marker
 
-/-! ### truth of a marker tree, given the truth of its leaves -/
-
-mutual
-def M.sem (ev : Leaf → Bool) : M → Bool
-  | .any => true
-  | .empty => false
-  | .leaf l => ev l
-  | .multi ms => M.semAll ev ms
-  | .union ms => M.semAny ev ms
-def M.semAll (ev : Leaf → Bool) : List M → Bool
-  | [] => true
-  | m :: ms => M.sem ev m && M.semAll ev ms
-def M.semAny (ev : Leaf → Bool) : List M → Bool
-  | [] => false
-  | m :: ms => M.sem ev m || M.semAny ev ms
-end
+/-! ### variables mentioned -/
 
 mutual
 def M.vars : M → List String
@@ -38,38 +24,44 @@ def M.varsList : List M → List String
   | m :: ms => M.vars m ++ M.varsList ms
 end
 
+variable {ev : Leaf → Bool} {G : Leaf → Prop}
+
 mutual
-theorem only_weakens_aux (ev : Leaf → Bool) (S : List String)
-    (hM : ∀ fuel stk ms r, multiOf fuel stk ms = .ok r → M.sem ev r = M.semAll ev ms)
-    (hU : ∀ fuel stk ms r, unionOf fuel stk ms = .ok r → M.sem ev r = M.semAny ev ms)
-    (m r : M) (h : M.only S m = .ok r) (hs : M.sem ev m = true) : M.sem ev r = true := by
+theorem only_weakens_aux (S : LeafSpec ev G) (names : List String)
+    (m r : M) (hg : M.Good G m) (h : M.only names m = .ok r) :
+    M.Good G r ∧ (M.sem ev m = true → M.sem ev r = true) := by
   cases m with
-  | any => simp [M.only] at h; subst h; simp [M.sem]
-  | empty => simp [M.sem] at hs
+  | any => simp [M.only] at h; subst h; simp
+  | empty => simp [M.only] at h; subst h; simp
   | leaf l =>
     simp [M.only] at h; subst h
-    split <;> simp_all [M.sem]
+    split
+    · exact ⟨hg, id⟩
+    · simp
   | multi ms =>
     simp only [M.only, bind, Except.bind] at h
     split at h
     · cases h
     · rename_i xs hx
-      rw [hM _ _ _ _ h]
-      exact (only_weakens_list ev S hM hU ms xs hx).1 (by simpa [M.sem] using hs)
+      have hl := only_weakens_list S names ms xs (by simpa [M.Good] using hg) hx
+      have hs := multiOf_sound S hl.1 h
+      refine ⟨hs.1, fun hm => ?_⟩
+      rw [hs.2]; exact hl.2.1 (by simpa only [M.sem] using hm)
   | union ms =>
     simp only [M.only, bind, Except.bind] at h
     split at h
     · cases h
     · rename_i xs hx
-      rw [hU _ _ _ _ h]
-      exact (only_weakens_list ev S hM hU ms xs hx).2 (by simpa [M.sem] using hs)
-theorem only_weakens_list (ev : Leaf → Bool) (S : List String)
-    (hM : ∀ fuel stk ms r, multiOf fuel stk ms = .ok r → M.sem ev r = M.semAll ev ms)
-    (hU : ∀ fuel stk ms r, unionOf fuel stk ms = .ok r → M.sem ev r = M.semAny ev ms)
-    (ms xs : List M) (h : M.onlyList S ms = .ok xs) :
-    (M.semAll ev ms = true → M.semAll ev xs = true) ∧ (M.semAny ev ms = true → M.semAny ev xs = true) := by
+      have hl := only_weakens_list S names ms xs (by simpa [M.Good] using hg) hx
+      have hs := unionOf_sound S hl.1 h
+      refine ⟨hs.1, fun hm => ?_⟩
+      rw [hs.2]; exact hl.2.2 (by simpa only [M.sem] using hm)
+theorem only_weakens_list (S : LeafSpec ev G) (names : List String)
+    (ms xs : List M) (hg : M.GoodAll G ms) (h : M.onlyList names ms = .ok xs) :
+    M.GoodAll G xs ∧ (M.semAll ev ms = true → M.semAll ev xs = true) ∧
+      (M.semAny ev ms = true → M.semAny ev xs = true) := by
   cases ms with
-  | nil => simp [M.onlyList] at h; subst h; simp
+  | nil => simp [M.onlyList] at h; subst h; simp [M.GoodAll]
   | cons m rest =>
     simp only [M.onlyList, bind, Except.bind] at h
     split at h
@@ -79,10 +71,11 @@ theorem only_weakens_list (ev : Leaf → Bool) (S : List String)
       · cases h
       · rename_i ys hys
         simp [pure, Except.pure] at h; subst h
-        have ih := only_weakens_list ev S hM hU rest ys hys
-        have ih1 := only_weakens_aux ev S hM hU m x hx
-        simp only [M.semAll, M.semAny, Bool.and_eq_true, Bool.or_eq_true]
-        exact ⟨fun ⟨a, b⟩ => ⟨ih1 a, ih.1 b⟩, fun hab => hab.elim (fun a => Or.inl (ih1 a)) (fun b => Or.inr (ih.2 b))⟩
+        have ih := only_weakens_list S names rest ys hg.2 hys
+        have ih1 := only_weakens_aux S names m x hg.1 hx
+        simp only [M.semAll, M.semAny, Bool.and_eq_true, Bool.or_eq_true, M.GoodAll]
+        exact ⟨⟨ih1.1, ih.1⟩, fun ⟨a, b⟩ => ⟨ih1.2 a, ih.2.1 b⟩,
+          fun hab => hab.elim (fun a => Or.inl (ih1.2 a)) (fun b => Or.inr (ih.2.2 b))⟩
 end
 
 /-! ### `only` mentions only the requested variables -/
@@ -150,20 +143,21 @@ def semAllExcept (ev : Leaf → Bool) (x : String) : List M → Bool
   | .leaf l :: ms => (if l.name == x then true else ev l) && semAllExcept ev x ms
   | m :: ms => M.sem ev m && semAllExcept ev x ms
 
-theorem excludeList_leaves (ev : Leaf → Bool) (x : String) (ms : List M) (hl : allLeaves ms = true) :
-    ∃ xs, M.excludeList x ms = .ok xs ∧ allLeaves xs = true ∧
+theorem excludeList_leaves (ev : Leaf → Bool) (G : Leaf → Prop) (x : String) (ms : List M)
+    (hl : allLeaves ms = true) (hg : M.GoodAll G ms) :
+    ∃ xs, M.excludeList x ms = .ok xs ∧ allLeaves xs = true ∧ M.GoodAll G xs ∧
       M.semAll ev xs = semAllExcept ev x ms := by
   induction ms with
-  | nil => exact ⟨[], by simp [M.excludeList], rfl, rfl⟩
+  | nil => exact ⟨[], by simp [M.excludeList], rfl, trivial, rfl⟩
   | cons m rest ih =>
     cases m with
     | leaf l =>
-      obtain ⟨ys, hys, hly, hsem⟩ := ih (by simpa [allLeaves] using hl)
+      obtain ⟨ys, hys, hly, hgy, hsem⟩ := ih (by simpa [allLeaves] using hl) hg.2
       by_cases hn : (l.name == x) = true
-      · refine ⟨ys, ?_, hly, ?_⟩
+      · refine ⟨ys, ?_, hly, hgy, ?_⟩
         · simp only [M.excludeList, isLeafNamed, hn, if_true]; exact hys
         · simp [semAllExcept, hn, hsem]
-      · refine ⟨.leaf l :: ys, ?_, ?_, ?_⟩
+      · refine ⟨.leaf l :: ys, ?_, ?_, ⟨hg.1, hgy⟩, ?_⟩
         · simp only [M.excludeList, isLeafNamed, hn, M.exclude, bind, Except.bind, hys, pure, Except.pure]
           simp
         · simpa [allLeaves] using hly
@@ -187,13 +181,14 @@ theorem filter_notEmpty_leaves (xs : List M) (h : allLeaves xs = true) :
     | multi _ => simp [allLeaves] at h
     | union _ => simp [allLeaves] at h
 
-theorem exclude_conj_aux (ev : Leaf → Bool) (x : String)
-    (hI : ∀ fuel stk ms r, intersectionF fuel stk ms = .ok r → M.sem ev r = M.semAll ev ms)
-    (ms : List M) (hl : allLeaves ms = true) (r : M) (h : M.exclude x (.multi ms) = .ok r) :
-    M.sem ev r = semAllExcept ev x ms := by
-  obtain ⟨xs, hxs, hlx, hsem⟩ := excludeList_leaves ev x ms hl
+theorem exclude_conj_aux (S : LeafSpec ev G) (x : String)
+    (ms : List M) (hl : allLeaves ms = true) (hg : M.GoodAll G ms) (r : M)
+    (h : M.exclude x (.multi ms) = .ok r) :
+    M.Good G r ∧ M.sem ev r = semAllExcept ev x ms := by
+  obtain ⟨xs, hxs, hlx, hgx, hsem⟩ := excludeList_leaves ev G x ms hl hg
   simp only [M.exclude, bind, Except.bind, hxs, filter_notEmpty_leaves xs hlx] at h
-  rw [hI _ _ _ _ h, hsem]
+  have := intersectionF_sound S hgx h
+  exact ⟨this.1, by rw [this.2, hsem]⟩
 
 /-! ### the tree semantics against poetry's own `validate` -/
 
@@ -320,13 +315,11 @@ def pyNames : List String := Gen.pythonVersionMarkers.reverse
 
 /-- what the reduction theorem needs from the other developments, at one environment (leaf truth `ev`,
 interpreter `py`) and one Python range `pc` that admits `py` -/
-structure ReduceCtx (ev : Leaf → Bool) (pc : VC) (py : Version) : Prop where
-  multiOf_sound : ∀ fuel stk ms r, multiOf fuel stk ms = .ok r → M.sem ev r = M.semAll ev ms
-  unionOf_sound : ∀ fuel stk ms r, unionOf fuel stk ms = .ok r → M.sem ev r = M.semAny ev ms
+structure ReduceCtx (ev : Leaf → Bool) (G : Leaf → Prop) (pc : VC) (py : Version) : Prop where
+  /-- C07's leaf specification (marker equality and leaf merging respect truth) -/
+  spec : LeafSpec ev G
   multiOf_vars : ∀ fuel stk ms r, multiOf fuel stk ms = .ok r → ∀ n ∈ M.vars r, n ∈ M.varsList ms
   unionOf_vars : ∀ fuel stk ms r, unionOf fuel stk ms = .ok r → ∀ n ∈ M.vars r, n ∈ M.varsList ms
-  intersect_sound : ∀ fuel stk a b r, mIntersect fuel stk a b = .ok r →
-    M.sem ev r = (M.sem ev a && M.sem ev b)
   /-- C11 `pyConstraint_exact` for a single-marker-like -/
   gpcLeaf_exact : ∀ (l : Leaf) (c : VC), isPyName l.name = true → gpcLeaf l = .ok c → c.allows py = .ok (ev l)
   /-- C11 `pyConstraint_exact` (the direction used) for python-only markers -/
@@ -337,13 +330,13 @@ structure ReduceCtx (ev : Leaf → Bool) (pc : VC) (py : Version) : Prop where
   allowsAny_sound : ∀ c : VC, c.allowsAny pc = .ok false → c.allows py = .ok true → False
   /-- C11 `createNested_exact` through poetry's own parser, at a range admitting `py` -/
   nested_true : ∀ (txt : String) (pm : M), createNestedMarker "python_version" pc = .ok txt → parseMarker txt = .ok pm →
-    M.sem ev pm = true
+    M.Good G pm ∧ M.sem ev pm = true
 
-theorem Leaf.reduce_exact {ev : Leaf → Bool} {pc : VC} {py : Version} (C : ReduceCtx ev pc py)
-    (l : Leaf) (r : M) (h : Leaf.reduce l pc = .ok r) : M.sem ev r = ev l := by
+theorem Leaf.reduce_exact {pc : VC} {py : Version} (C : ReduceCtx ev G pc py)
+    (l : Leaf) (r : M) (hg : G l) (h : Leaf.reduce l pc = .ok r) : M.Good G r ∧ M.sem ev r = ev l := by
   cases l with
-  | amulti n c => simp [Leaf.reduce, pure, Except.pure] at h; subst h; rfl
-  | aunion n c => simp [Leaf.reduce, pure, Except.pure] at h; subst h; rfl
+  | amulti n c => simp [Leaf.reduce, pure, Except.pure] at h; subst h; exact ⟨by simpa using hg, by simp⟩
+  | aunion n c => simp [Leaf.reduce, pure, Except.pure] at h; subst h; exact ⟨by simpa using hg, by simp⟩
   | single s =>
     simp only [Leaf.reduce] at h
     by_cases hp : isPyName s.name = true
@@ -360,6 +353,7 @@ theorem Leaf.reduce_exact {ev : Leaf → Bool} {pc : VC} {py : Version} (C : Red
             simp [pure, Except.pure] at h; subst h
             have := C.allowsAll_sound c hall
             rw [hex] at this
+            refine ⟨by simp, ?_⟩
             simp only [M.sem]; injection this with this; exact this.symm
           · have hb' : ball = false := by cases ball <;> simp_all
             subst hb'
@@ -370,6 +364,7 @@ theorem Leaf.reduce_exact {ev : Leaf → Bool} {pc : VC} {py : Version} (C : Red
               cases bany with
               | false =>
                 simp [pure, Except.pure] at h; subst h
+                refine ⟨by simp, ?_⟩
                 simp only [M.sem]
                 cases hev : ev (.single s) with
                 | false => rfl
@@ -385,28 +380,34 @@ theorem Leaf.reduce_exact {ev : Leaf → Bool} {pc : VC} {py : Version} (C : Red
                     split at h
                     · cases h
                     · rename_i i hi
-                      have hs := C.intersect_sound _ _ _ _ _ hi
-                      rw [C.nested_true txt pm htxt hpm] at hs
+                      have hn := C.nested_true txt pm htxt hpm
+                      have hs := mIntersect_sound C.spec (by simpa using hg) hn.1 hi
+                      rw [hn.2] at hs
                       split at h <;> simp [pure, Except.pure] at h <;> subst h
-                      · simpa [M.sem] using hs
-                      · rfl
-    · simp [hp, pure, Except.pure] at h; subst h; rfl
+                      · exact ⟨hs.1, by simpa [M.sem] using hs.2⟩
+                      · exact ⟨by simpa using hg, by simp⟩
+    · simp [hp, pure, Except.pure] at h; subst h; exact ⟨by simpa using hg, by simp⟩
 
 mutual
-theorem reduce_exact_aux {ev : Leaf → Bool} {pc : VC} {py : Version} (C : ReduceCtx ev pc py)
-    (m r : M) (h : M.reduce pc m = .ok r) : M.sem ev r = M.sem ev m := by
+theorem reduce_exact_aux {pc : VC} {py : Version} (C : ReduceCtx ev G pc py)
+    (m r : M) (hg : M.Good G m) (h : M.reduce pc m = .ok r) : M.Good G r ∧ M.sem ev r = M.sem ev m := by
   cases m with
-  | any => simp [M.reduce] at h; subst h; rfl
-  | empty => simp [M.reduce] at h; subst h; rfl
-  | leaf l => simp only [M.reduce] at h; simpa [M.sem] using Leaf.reduce_exact C l r h
+  | any => simp [M.reduce] at h; subst h; simp
+  | empty => simp [M.reduce] at h; subst h; simp
+  | leaf l =>
+    simp only [M.reduce] at h
+    have := Leaf.reduce_exact C l r (by simpa using hg) h
+    exact ⟨this.1, by simpa [M.sem] using this.2⟩
   | multi ms =>
     simp only [M.reduce, bind, Except.bind] at h
     split at h
     · cases h
     · rename_i xs hx
-      rw [C.multiOf_sound _ _ _ _ h]
-      simpa [M.sem] using (reduce_exact_list C ms xs hx).1
+      have hl := reduce_exact_list C ms xs (by simpa [M.Good] using hg) hx
+      have hs := multiOf_sound C.spec hl.1 h
+      exact ⟨hs.1, by rw [hs.2, hl.2.1]; simp only [M.sem]⟩
   | union ms =>
+    have hgl : M.GoodAll G ms := by simpa [M.Good] using hg
     simp only [M.reduce, bind, Except.bind] at h
     split at h
     · cases h
@@ -414,6 +415,7 @@ theorem reduce_exact_aux {ev : Leaf → Bool} {pc : VC} {py : Version} (C : Redu
       cases sc with
       | true =>
         simp [pure, Except.pure] at h; subst h
+        refine ⟨by simp, ?_⟩
         -- the shortcut answered yes
         by_cases hr : isRangeOrUnion pc = true
         · simp only [hr, if_true] at hsc
@@ -425,8 +427,10 @@ theorem reduce_exact_aux {ev : Leaf → Bool} {pc : VC} {py : Version} (C : Redu
             · rename_i u hu
               split at hsc
               · cases hsc
-              · rename_i g hg
+              · rename_i g hg'
                 have hmem := filterM_mem _ ms pyOnly hpo
+                have hgp : M.GoodAll G pyOnly :=
+                  (M.goodAll_iff pyOnly).2 (fun m hm => (M.goodAll_iff ms).1 hgl m (hmem m hm).1)
                 have hvars : ∀ n ∈ M.vars u, n ∈ pyNames := by
                   intro n hn
                   obtain ⟨m, hm, hnm⟩ := varsList_mem pyOnly n (C.unionOf_vars _ _ _ _ hu n hn)
@@ -437,8 +441,8 @@ theorem reduce_exact_aux {ev : Leaf → Bool} {pc : VC} {py : Version} (C : Redu
                     simp [pure, Except.pure] at this
                     rw [beq_vars _ _ this] at hnm
                     exact only_mentions_aux pyNames C.multiOf_vars C.unionOf_vars m o ho n hnm
-                have hsu := C.gpc_lower u g hvars hg (C.allowsAll_sound g hsc)
-                rw [C.unionOf_sound _ _ _ _ hu] at hsu
+                have hsu := C.gpc_lower u g hvars hg' (C.allowsAll_sound g hsc)
+                rw [(unionOf_sound C.spec hgp hu).2] at hsu
                 obtain ⟨m, hm, hs⟩ := semAny_exists ev pyOnly hsu
                 simp only [M.sem]
                 exact (semAny_of_mem ev ms m (hmem m hm).1 hs).symm ▸ rfl
@@ -448,13 +452,14 @@ theorem reduce_exact_aux {ev : Leaf → Bool} {pc : VC} {py : Version} (C : Redu
         split at h
         · cases h
         · rename_i xs hx
-          rw [C.unionOf_sound _ _ _ _ h]
-          simpa [M.sem] using (reduce_exact_list C ms xs hx).2
-theorem reduce_exact_list {ev : Leaf → Bool} {pc : VC} {py : Version} (C : ReduceCtx ev pc py)
-    (ms xs : List M) (h : M.reduceList pc ms = .ok xs) :
-    M.semAll ev xs = M.semAll ev ms ∧ M.semAny ev xs = M.semAny ev ms := by
+          have hl := reduce_exact_list C ms xs hgl hx
+          have hs := unionOf_sound C.spec hl.1 h
+          exact ⟨hs.1, by rw [hs.2, hl.2.2]; simp only [M.sem]⟩
+theorem reduce_exact_list {pc : VC} {py : Version} (C : ReduceCtx ev G pc py)
+    (ms xs : List M) (hg : M.GoodAll G ms) (h : M.reduceList pc ms = .ok xs) :
+    M.GoodAll G xs ∧ M.semAll ev xs = M.semAll ev ms ∧ M.semAny ev xs = M.semAny ev ms := by
   cases ms with
-  | nil => simp [M.reduceList] at h; subst h; simp
+  | nil => simp [M.reduceList] at h; subst h; simp [M.GoodAll]
   | cons m rest =>
     simp only [M.reduceList, bind, Except.bind] at h
     split at h
@@ -464,9 +469,10 @@ theorem reduce_exact_list {ev : Leaf → Bool} {pc : VC} {py : Version} (C : Red
       · cases h
       · rename_i ys hys
         simp [pure, Except.pure] at h; subst h
-        have ih := reduce_exact_list C rest ys hys
-        have ih1 := reduce_exact_aux C m x hx
-        simp only [M.semAll, M.semAny, ih1, ih.1, ih.2, and_self]
+        have ih := reduce_exact_list C rest ys hg.2 hys
+        have ih1 := reduce_exact_aux C m x hg.1 hx
+        simp only [M.semAll, M.semAny, ih1.2, ih.2.1, ih.2.2, and_self, M.GoodAll, and_true]
+        exact ⟨ih1.1, ih.1⟩
 end
 
 end Poetry.Marker
